@@ -1,6 +1,6 @@
 (* C15 — property theorems only.  Statements are full; proofs are [exact lemma]. *)
 From Coq Require Import List NArith Bool.
-From LE Require Import BFT.Contradiction Forge.GenInfo Forge.GenInfoProofs.
+From LE Require Import BFT.Contradiction Forge.GenInfo Forge.GenInfoProofs Forge.Select Forge.SelectProofs.
 Import ListNotations.
 Local Open Scope N_scope.
 
@@ -46,3 +46,39 @@ Example C15_ex_repaired :
   exists s, run 7 init_header (init {| t_hmhp := 50; t_smhp := 50; t_height := 98 |}) w_evs = Some s /\
             map mhg (published s) = [100; 100; 99; 0].
 Proof. exact repaired_on_witness. Qed.
+
+(* ---------------------------------------------------------------- transaction selection *)
+(* for every pool, size limit, outcome oracle (which may depend on what was executed before) and every pop
+   trace the heap loop can produce: the output is the successful part of the trace in order, its size is within
+   the limit, every popped transaction is the first remaining one of its sender and has maximal fee priority
+   among the first remaining transactions of all senders still queued, and after a failing verify / execute
+   nothing of that sender is tried again *)
+Theorem C15_selection_spec : forall limit outcome pool trace out,
+  valid_selection limit outcome pool trace out = true ->
+  out = goods outcome [] trace /\
+  sum_size out <= limit /\
+  (forall pre t post, trace = pre ++ t :: post ->
+     exists s1, run_trace limit outcome (start pool) pre = Some s1 /\
+       is_head t (qs s1) = true /\ (forall h, In h (heads (qs s1)) -> prio h <= prio t) /\
+       (outcome (rev (picked s1)) t <> Good -> forall p, In p post -> sender p <> sender t)).
+Proof. exact selection_spec. Qed.
+
+(* per-sender nonce order: what is tried of one sender is a gap-free prefix of its transactions sorted by nonce,
+   each popped transaction being exactly the next one of its sender *)
+Theorem C15_selection_nonce_order : forall limit outcome pool trace st',
+  run_trace limit outcome (start pool) trace = Some st' ->
+  (forall s, exists rest, of_sender s trace ++ rest = sender_queue pool s) /\
+  (forall pre t post, trace = pre ++ t :: post ->
+     exists rest, of_sender (sender t) pre ++ t :: rest = sender_queue pool (sender t)).
+Proof. exact nonce_order. Qed.
+
+(* the heads compared against are the next not yet tried transactions of the senders still queued *)
+Theorem C15_selection_heads_are_next : forall limit outcome pool pre s1,
+  run_trace limit outcome (start pool) pre = Some s1 ->
+  forall s u l, queue_of s (qs s1) = Some (u :: l) -> of_sender s pre ++ u :: l = sender_queue pool s.
+Proof. exact heads_are_next. Qed.
+
+Example C15_ex_selection :
+  let a1 := Build_tx 1 0 100 10 1 in let a2 := Build_tx 1 1 900 10 2 in let b1 := Build_tx 2 5 500 10 3 in
+  valid_selection 25 (fun _ _ => Good) [a2; b1; a1] [b1; a1] [b1; a1] = true.
+Proof. vm_compute. reflexivity. Qed.
